@@ -115,7 +115,12 @@ class HTTPProtocol(BaseGopherProtocol):
             url = re.match("(/|)URL:(.+)$", entry.getselector()).group(2)
         elif (not entry.gethost()) and (not entry.getport()):
             # It's a link to our own server.  Make it as such.  (relative)
-            url = urllib.parse.quote(entry.getselector(), errors="surrogateescape")
+            # (The empty selector is the root: an empty HREF would be the
+            # page the link is on.)
+            url = (
+                urllib.parse.quote(entry.getselector(), errors="surrogateescape")
+                or "/"
+            )
         else:
             # Link to a different server.  Make it a gopher URL.
             url = entry.geturl(self.server.server_name, self.server.server_port)
